@@ -38,6 +38,9 @@ def configs(ctx):
       for batch in (1, 2, 3):
         out.append({'max_queue': 3, 'batch': batch, 'flow': True, 'dynamic': False, 'protocol': proto, 'ndest': 1, 'arm': True})
         out.append({'max_queue': 3, 'batch': batch, 'flow': True, 'dynamic': True, 'protocol': proto, 'ndest': 1, 'ratio_reset': True})
+      for mq in (1, 2):
+        out.append({'max_queue': mq, 'batch': 2, 'flow': mq == 2, 'dynamic': False, 'protocol': proto, 'ndest': mq, 'report': True,
+                    'hp': False, 'stop': False, 'metrics': ('m',) if mq == 1 else ('m', 'n'), 'max_reports': 2 if mq == 1 else 1})
     return out
   # pairwise-covering selection
   rows = [
@@ -55,6 +58,13 @@ def configs(ctx):
   out.append({'max_queue': 2, 'batch': 2, 'flow': True, 'dynamic': False, 'protocol': 'pickle', 'ndest': 1, 'arm': True, 'hp': False, 'stop': False})
   out.append({'max_queue': 2, 'batch': 1, 'flow': True, 'dynamic': False, 'protocol': 'pickle', 'ndest': 1, 'ratio_reset': True, 'hp': False, 'stop': False})
   out.append({'max_queue': 3, 'batch': 2, 'flow': False, 'dynamic': False, 'protocol': 'line', 'ndest': 1, 'ratio_reset': True, 'hp': False})
+  # the instrumentation tick (recordMetrics) runs between the other events: counters are reported and cleared, and the
+  # self-metrics it generates re-enter the send path (where they can be discarded and must be counted like anything else)
+  out.append({'max_queue': 1, 'batch': 1, 'flow': False, 'dynamic': False, 'protocol': 'pickle', 'ndest': 1, 'report': True, 'hp': False,
+              'stop': False, 'metrics': ('m',)})
+  out.append({'max_queue': 2, 'batch': 5, 'flow': True, 'dynamic': False, 'protocol': 'line', 'ndest': 2, 'report': True, 'hp': False,
+              'stop': False, 'metrics': ('m', 'n'), 'max_reports': 1})     # (no series routed to both destinations and one tick only: the
+  # order in which two destinations of ONE datapoint are served is unspecified and would decide the order of the next report)
   return out
 
 
